@@ -162,6 +162,8 @@ func runC11(c *engine.Ctx) {
 		variants = append(variants, variant{string(k), k, ""})
 	}
 	variants = append(variants, variant{"mem+versionId(archived)", drv.Mem, "old"}, variant{"mem+versionId(current)", drv.Mem, "current"})
+	// objects uploaded with entity headers of their own (a Content-Range on the PUT must not come back on a ranged GET)
+	variants = append(variants, variant{"mem+entity-headers-on-upload", drv.Mem, "hdr"}, variant{"multi-mem+entity-headers-on-upload", drv.MultiMem, "hdr"})
 	ks = ks[:0]
 	for _, vr := range variants {
 		ks = append(ks, vr.name)
@@ -177,7 +179,7 @@ func runC11(c *engine.Ctx) {
 		if !kind.IsSingle() {
 			w.Do(drv.Req{Method: "PUT", Path: "/aaa"})
 		}
-		if vr.ver != "" {
+		if vr.ver == "old" || vr.ver == "current" {
 			if r := w.Do(drv.Req{Method: "PUT", Path: "/aaa", Query: "versioning", Body: []byte("<VersioningConfiguration><Status>Enabled</Status></VersioningConfiguration>")}); r.Status != 200 {
 				engine.HarnessError("C11 setup versioning: %s", r.Short())
 			}
@@ -197,11 +199,15 @@ func runC11(c *engine.Ctx) {
 				puts = [][]byte{[]byte("OLDER-CONTENT-OF-ANOTHER-LENGTH"), b}
 			}
 			for _, pb := range puts {
-				r := w.Do(drv.Req{Method: "PUT", Path: fmt.Sprintf("/aaa/o%d", sz), Body: pb})
+				var uh [][2]string
+				if vr.ver == "hdr" {
+					uh = drv.H("Content-Range", "bytes 0-99/100", "Content-Language", "en", "Content-Location", "/elsewhere", "Accept-Ranges", "none")
+				}
+				r := w.Do(drv.Req{Method: "PUT", Path: fmt.Sprintf("/aaa/o%d", sz), Body: pb, Header: uh})
 				if r.Status != 200 {
 					engine.HarnessError("C11 setup put: %s", r.Short())
 				}
-				if vr.ver != "" && bytes.Equal(pb, b) {
+				if (vr.ver == "old" || vr.ver == "current") && bytes.Equal(pb, b) {
 					id := r.Header.Get("x-amz-version-id")
 					if id == "" {
 						engine.HarnessError("C11 setup: no version id on a versioned put")
